@@ -63,12 +63,14 @@ def run(idx, rep, tier):
                     if isinstance(n, ast.Subscript):
                         idxs = n.slice.elts if isinstance(n.slice, ast.Tuple) else [n.slice]
                         last = idxs[-1]
-                        if isinstance(last, ast.Name) and last.id in sel:
-                            used.setdefault(last.id, []).append(ast.unparse(n.value))
+                        # a selection is a name bound to argsort / get_slice, or such a call written inline
+                        inline_sel = isinstance(last, ast.Call) and ast.unparse(last.func).endswith(("argsort", "get_slice"))
+                        if (isinstance(last, ast.Name) and last.id in sel) or inline_sel:
+                            used.setdefault(ast.unparse(last).replace(" ", ""), []).append(ast.unparse(n.value))
                             n_uses += 1
             if len(used) > 1:
                 bad = f"values and vectors are selected by different indices in one branch: {used}"
-        if sel:
+        if sel or n_uses:
             rep.decide(False if bad else (True if n_uses >= 2 else None), "pairing", construct,
                        bad or (f"{n_uses} selections all use the index {sorted(sel)}" if n_uses >= 2 else "fewer than two selections use the index"), detail="" if not bad else "index", locs=[rule.loc])
         # ---- sign of Sigma
@@ -192,12 +194,14 @@ def krylov_svd(idx, rep, rule):
     a = rule.params[0][0]
     A = sym(a)
     te = TermEval(idx)
-    # the locals holding the factors are identified by their position in the returned triple (U, Sigma, V)
-    rets = [r.value for r in df.returns(fi.node) if isinstance(r.value, ast.Tuple) and len(r.value.elts) == 3 and all(isinstance(e, ast.Name) for e in r.value.elts)]
+    # the locals holding the factors are identified by their position in the returned triple (U, Sigma, V); a factor written
+    # inline in the returned triple is the definition of that role at the return
+    rets = [r for r in df.returns(fi.node) if isinstance(r.value, ast.Tuple) and len(r.value.elts) == 3]
     if not rets:
-        rep.undecided("back-substitution", rule.role, "the rule does not return a triple of locals")
+        rep.undecided("back-substitution", rule.role, "the rule does not return a triple")
         return
-    role_of = {e.id: role for role, e in zip(("U", "Sigma", "V"), rets[-1].elts)}
+    role_of = {e.id: role for role, e in zip(("U", "Sigma", "V"), rets[-1].value.elts) if isinstance(e, ast.Name)}
+    inline_defs = {id(getattr(r, "_origin", r)): [(role, e) for role, e in zip(("U", "Sigma", "V"), r.value.elts) if not isinstance(e, ast.Name)] for r in rets}
     sym_env = {n: sym(role) for n, role in role_of.items()}
     solver_calls = []
     for label, stmts in blocks(fi):
@@ -214,27 +218,31 @@ def krylov_svd(idx, rep, rule):
                     solver_calls.append(c)
                     rep.decide(kind is not None, "gram-operator", f"{rule.role}:{label}", f"{f} runs on {show(t)}" + ("" if kind else f"; required H({a})·{a} or {a}·H({a})"),
                                detail="" if kind else "gram", locs=[idx.loc(fi.module, c)])
-            if not isinstance(st, ast.Assign) or len(st.targets) != 1 or not isinstance(st.targets[0], ast.Name):
-                continue
-            local = st.targets[0].id
-            tgt = role_of.get(local)
-            if tgt not in ("U", "V") or gram is None:
-                continue
-            # which factor came out of the eigen-solver in this block?
-            direct = any(isinstance(n, ast.Subscript) and isinstance(n.value, ast.Name) and n.value.id == local for n in ast.walk(st.value))
-            if direct:
-                continue
-            t = te.eval_in(fi, st.value, sym_env)
-            hyp = frozenset({("real", sym("Sigma")), ("symm", sym("Sigma"))})
-            if gram == "HA·A" and tgt == "U":
-                want = MUL(A, sym("V"), INV(sym("Sigma")))
-            elif gram == "A·HA" and tgt == "V":
-                want = MUL(H(A), sym("U"), INV(sym("Sigma")))
-            else:
-                rep.refuted("back-substitution", f"{rule.role}:{label}:{tgt}", f"{tgt} is recomputed although the eigen-solver on {gram} already yields it", detail="role", locs=[idx.loc(fi.module, st)])
-                continue
-            ok = equal(t, want, hyp)
-            rep.decide(ok, "back-substitution", f"{rule.role}:{label}:{tgt}", f"{tgt} = {show(norm(t, hyp))}; required {show(norm(want, hyp))}"
-                       + (f" [outside the grammar: {opaque_text(norm(t))}]" if ok is None else ""), detail="" if ok else "meaning", locs=[idx.loc(fi.module, st)])
+            defs_here = []
+            if isinstance(st, ast.Assign) and len(st.targets) == 1 and isinstance(st.targets[0], ast.Name):
+                defs_here.append((role_of.get(st.targets[0].id), st.value, st.targets[0].id))
+            elif isinstance(st, ast.Return):
+                defs_here += [(role, e, None) for role, e in inline_defs.get(id(st), [])]
+            for tgt, value, local in defs_here:
+                if tgt not in ("U", "V") or gram is None:
+                    continue
+                # which factor came out of the eigen-solver in this block?
+                direct = local is not None and any(isinstance(n, ast.Subscript) and isinstance(n.value, ast.Name) and n.value.id == local for n in ast.walk(value))
+                if direct:
+                    continue
+                t = te.eval_in(fi, value, sym_env)
+                hyp = frozenset({("real", sym("Sigma")), ("symm", sym("Sigma"))})
+                if gram == "HA·A" and tgt == "U":
+                    want = MUL(A, sym("V"), INV(sym("Sigma")))
+                elif gram == "A·HA" and tgt == "V":
+                    want = MUL(H(A), sym("U"), INV(sym("Sigma")))
+                else:
+                    rep.refuted("back-substitution", f"{rule.role}:{label}:{tgt}", f"{tgt} is recomputed although the eigen-solver on {gram} already yields it", detail="role", locs=[idx.loc(fi.module, st)])
+                    continue
+                ok = equal(t, want, hyp)
+                rep.decide(ok, "back-substitution", f"{rule.role}:{label}:{tgt}", f"{tgt} = {show(norm(t, hyp))}; required {show(norm(want, hyp))}"
+                           + (f" [outside the grammar: {opaque_text(norm(t))}]" if ok is None else ""), detail="" if ok else "meaning", locs=[idx.loc(fi.module, st)])
     if not solver_calls:
         rep.undecided("gram-operator", rule.role, "no eigen-solver call found")
+
+
